@@ -697,11 +697,14 @@ class World:
     # -- resources
     async def op_borrow(self, a, op):
         name = op.get("nested") or op["on"]
-        supply = self.res[name]
         amounts = dict(op["amounts"])
         ident = op.get("id")
         mode = op.get("mode", "borrow")
         entered = False
+        if name not in self.res:
+            self.log(a, mode + ".nosupply", name, ident, amounts)     # block never reached
+            return
+        supply = self.res[name]
         try:
             key = op.get("ctx")
             if key is not None and key in self.ctxs:
@@ -710,6 +713,9 @@ class World:
                 ctx = supply.borrow(**amounts) if mode == "borrow" else supply.claim(**amounts)
                 if key is not None:
                     self.ctxs[key] = ctx
+            if op.get("share"):
+                # `share = supply.borrow(...)`: the object is known to others from now on
+                self.res[op["share"]] = ctx
             if op.get("defer"):
                 # the context object is made now and entered later
                 self.log(a, mode + ".made", name, ident, amounts)
@@ -760,9 +766,24 @@ class World:
         total = op["total"]
         tp = op.get("tp")
         tp = math.inf if tp == "inf" else tp
+        coro = None
+        if op.get("defer") is not None or op.get("abandon"):
+            # `job = pipe.transfer(...)` made now, started later (or dropped unstarted): a
+            # transfer occupies the pipe from the moment it runs, not from when it is written down
+            coro = pipe.transfer(total=total, throughput=tp)
+            self.log(a, "transfer.made", name, op.get("id"))
+            try:
+                await self.run_ops(a, op.get("defer") or ())
+            except BaseException:
+                coro.close()
+                raise
+            if op.get("abandon"):
+                coro.close()
+                self.log(a, "transfer.dropped", name, op.get("id"))
+                return
         self.log(a, "transfer+", name, op.get("id"), total, tp)
         try:
-            await pipe.transfer(total=total, throughput=tp)
+            await (coro if coro is not None else pipe.transfer(total=total, throughput=tp))
         except BaseException as err:
             self.log(a, "transfer!", name, op.get("id"), self.meta(err))
             raise
